@@ -36,6 +36,13 @@ var Properties = map[string]func(*Ctx){
 	"C04": C04,
 	"C15": C15,
 	"C13": C13,
+	"C14": C14,
+}
+
+func C14(c *Ctx) {
+	R17YaotlTags(c)
+	R17Consumers(c)
+	R18ErrDrop(c)
 }
 
 func C13(c *Ctx) {
